@@ -242,7 +242,8 @@ pub fn run(seed: u64, count: usize, thorough: bool, out: &mut Out) {
             allow_empty: i % 3 != 0,
             max_models: 3,
             max_children: if i % 8 == 0 { 6 } else { 3 },
-            max_atoms: 4,
+            // now and then conformers with many atoms (more than twice a small pool: parallel iterators that split into blocks)
+            max_atoms: if i % 5 == 0 { 11 } else { 4 },
             serial_range: 30,
         };
         let p = gen::ragged(&mut rng, &cfg);
